@@ -135,6 +135,7 @@ def gen_cases(tier, verif_seed):
     n_groups = {'quick': 1200, 'thorough': 40000}[tier]
     opcode_share = {'quick': .25, 'thorough': .5}[tier]
     cat = sorted(catalogue())
+    cat_list = [list(c) for c in cat]   # one object shared by every case
     for g in range(n_groups):
         gseed = derive(ID, verif_seed, 'g', g) & 0xffffffffffff
         rng = Streams(gseed)['workload']
@@ -176,7 +177,7 @@ def gen_cases(tier, verif_seed):
                          'opcodes': region is not None and
                          sr.random() < opcode_share},
                 'gc': sr.random() < .1,
-                'catalogue': [list(c) for c in cat],
+                'catalogue': cat_list,
             }
 
 
